@@ -404,6 +404,10 @@ static void PlaceValue(Word Value, Boolean IsByte) {
         }
     } else {
         if (CodeSegSize) {
+            /* a string left half a word pending: complete it (high byte 0) instead of dropping the character */
+            if (WordAccFull) {
+                AppendCode(WordAcc);
+            }
             AppendCode(Value);
         } else {
             BAsmCode[CodeLen++] = Lo(Value);
